@@ -30,6 +30,7 @@ class VFile:
         self.mtime = mtime
         self.writers = 0          # number of processes holding it open for writing
         self.meta = meta
+        self.committed = {content}     # every content the file had while nobody was in the middle of writing it
 
 
 class VFS:
@@ -89,12 +90,15 @@ class VHandle:
                 f.content = data + f.content[len(data):]
             f.mtime = self.sched.vfs.tick()
             f.writers -= 1
+            if f.writers == 0:
+                f.committed.add(f.content)
 
     def read(self, n=-1):
         self.sched.point("read", self.path)
         f = self.sched.vfs.files.get(self.path)
         data = f.content if f else ""
-        if f is not None and f.writers > 0:
+        if f is not None and f.writers > 0 and data not in f.committed:
+            # content that only exists because somebody is half-way through rewriting the file
             self.sched.vfs.torn_reads.append((self.sched.current, self.path, data))
         self.sched.record_result(("read", self.path, data))
         out = data[self._readpos:] if n < 0 else data[self._readpos:self._readpos + n]
@@ -301,6 +305,8 @@ class Interposer:
                     f.content = new + f.content[len(new):] if not getattr(h, "_truncated", False) else new
                     f.mtime = s.vfs.tick()
                     f.writers -= 1
+                    if f.writers == 0:
+                        f.committed.add(f.content)
                 h.close = close_rplus
 
                 def trunc(size=None):
@@ -358,6 +364,7 @@ class Interposer:
             if src not in s.vfs.files:
                 raise FileNotFoundError(src)
             s.vfs.files[dst] = s.vfs.files.pop(src)
+            s.vfs.files[dst].committed.add(s.vfs.files[dst].content)
 
         def vremove(path, **kw):
             if not v(path) or me.sched is None:
